@@ -1864,6 +1864,38 @@ fn special_ctx(pp: &PProblem, solution: &Value, msg: &str) -> &'static str {
     }
 }
 
+/// Does a tour of the vehicle named by the message really report a REQUIRED break as an activity of a point stop (same
+/// duration, start inside the break's earliest..latest, exact or as offset from the tour's departure)? Only then the
+/// reader's missing required-break support explains a "cannot match 'break'".
+fn required_break_in_point_stop(problem: &Value, solution: &Value, msg: &str) -> bool {
+    let vid = msg.split('\'').nth(3).unwrap_or("");
+    let Some(vehicle) = problem["fleet"]["vehicles"].as_array().into_iter().flatten().find(|v| v["vehicleIds"].as_array().is_some_and(|ids| ids.iter().any(|i| i.as_str() == Some(vid)))) else {
+        return false;
+    };
+    for tour in solution["tours"].as_array().into_iter().flatten().filter(|t| t["vehicleId"].as_str() == Some(vid)) {
+        let si = tour["shiftIndex"].as_u64().unwrap_or(0) as usize;
+        let stops = tour["stops"].as_array().cloned().unwrap_or_default();
+        let first = &stops.first().cloned().unwrap_or(Value::Null);
+        let departures: Vec<i64> = [first["activities"][0]["time"]["end"].as_str(), first["time"]["departure"].as_str()].into_iter().flatten().filter_map(parse_time).collect();
+        for br in vehicle["shifts"][si]["breaks"].as_array().into_iter().flatten().filter(|b| b.get("duration").is_some() && b.get("places").is_none()) {
+            let duration = br["duration"].as_f64().unwrap_or(-1.) as i64;
+            let windows: Vec<(i64, i64)> = match (&br["time"]["earliest"], &br["time"]["latest"]) {
+                (Value::String(e), Value::String(l)) => parse_time(e).zip(parse_time(l)).into_iter().collect(),
+                (e, l) => departures.iter().map(|d| (d + e.as_f64().unwrap_or(0.) as i64, d + l.as_f64().unwrap_or(0.) as i64)).collect(),
+            };
+            for stop in stops.iter().filter(|s| s.get("location").is_some()) {
+                for a in stop["activities"].as_array().into_iter().flatten().filter(|a| a["type"].as_str() == Some("break")) {
+                    let Some((s, e)) = interval_of(&a["time"], "start", "end").or_else(|| interval_of(&stop["time"], "arrival", "departure")) else { continue };
+                    if e - s == duration && windows.iter().any(|(lo, hi)| lo - 1 <= s && s <= hi + 1) {
+                        return true;
+                    }
+                }
+            }
+        }
+    }
+    false
+}
+
 struct InitInput<'a> {
     case_seed: u64,
     problem_json: &'a Value,
@@ -1944,7 +1976,7 @@ fn init_check(run: &Run, inp: &InitInput, problem: Arc<CoreProblem>) -> Option<S
                 run.inconclusive("solver output uses one break/reload definition twice in a tour (C02's subject)");
                 return None;
             }
-            if class == "cannot-match-special" && special_ctx(&pp, inp.solution, &msg) == "required-break" {
+            if class == "cannot-match-special" && special_ctx(&pp, inp.solution, &msg) == "required-break" && required_break_in_point_stop(inp.problem_json, inp.solution, &msg) {
                 // required breaks are no jobs for the reader: the same gap it declares for transit stops
                 run.inconclusive("required break reported inside a point stop (reader has no required-break support, declared for transit stops)");
                 return None;
@@ -2221,7 +2253,7 @@ fn init_case(run: &Run, case_seed: u64) {
     cfg.p_multi_jobs = 0.9;
     cfg.p_breaks = 0.4;
     cfg.p_recharge = 0.08;
-    cfg.p_required_breaks = 0.04;
+    cfg.p_required_breaks = 0.15;
     cfg.p_clustering = 0.04;
     cfg.always_tag = true;
     let mut gp: PragProblem = generate(&mut rng, &cfg);
